@@ -11,6 +11,8 @@ def kind_of_dtype(dt):
 def pyval(v):
     return v.item() if isinstance(v, numpy.generic) else v
 
+UNINIT_SYMBOLIC = [True]     # numpy.empty of the proxy returns fresh symbols (arbitrary garbage) instead of zeros
+
 class SArray:
     __array_priority__ = 1e6
 
@@ -790,7 +792,18 @@ class NPProxy(pytypes.ModuleType):
     def __init__(self):
         super().__init__('symnp')
     def __getattr__(self, n): return getattr(numpy, n)
-    def empty(self, shape, dtype=float, **kw): return SArray.wrap(numpy.zeros(_shape_tuple(shape), dtype))
+    def empty(self, shape, dtype=float, **kw):
+        # uninitialised memory holds ARBITRARY values: every entry is a fresh symbol, so a result that depends on an entry that was never written has a counterexample
+        shape = _shape_tuple(shape); k = kind_of_dtype(numpy.dtype(dtype))
+        try: c = ctx()
+        except Exception: c = None
+        if c is None or not UNINIT_SYMBOLIC[0] or int(numpy.prod(shape, dtype=int)) > 4096: return SArray.wrap(numpy.zeros(shape, dtype))
+        sort = {'b': z3.BoolSort(), 'i': z3.IntSort(), 'f': z3.RealSort()}.get(k)
+        out = numpy.empty(shape, object)
+        for i in numpy.ndindex(*shape):
+            if k == 'c': out[i] = SCplx(c.fresh(z3.RealSort(), 'uninit'), c.fresh(z3.RealSort(), 'uninit'))
+            else: out[i] = {'b': SBool, 'i': SInt, 'f': SReal}[k](c.fresh(sort, 'uninit'))
+        return SArray(out, k)
     def zeros(self, shape, dtype=float, **kw): return SArray.wrap(numpy.zeros(_shape_tuple(shape), dtype))
     def ones(self, shape, dtype=float, **kw): return SArray.wrap(numpy.ones(_shape_tuple(shape), dtype))
     def arange(self, *a, **kw): return SArray.wrap(numpy.arange(*[operator.index(x) for x in a], **kw))
